@@ -32,7 +32,7 @@ package impl
 //@     invariant len(result) == filtLen(e, K, N, input, i)
 //@     invariant forall k int :: 0 <= k && k < i ==> critTV(e, K, N, input[k]) != TV_ERR
 //@     invariant forall k int :: 0 <= k && k < i && keepW(e, K, N, input[k]) ==> filtLen(e, K, N, input, k) < len(result) && result[filtLen(e, K, N, input, k)] == input[k]
-//@   assigns nothing
+//@   assigns ctx.LastResult, ctx.BeforeLastResult
 //
 // all(criteria): true iff the criterion is true for every item (C10); singleton rule (C06).
 //@ func All(ctx, input, args) (res, err)
@@ -49,7 +49,7 @@ package impl
 //@   loop 1 (i):
 //@     invariant 0 <= i && i <= len(input)
 //@     invariant forall k int :: 0 <= k && k < i ==> critTV(e, K, N, input[k]) == TV_T
-//@   assigns nothing
+//@   assigns ctx.LastResult, ctx.BeforeLastResult
 //
 // exists(criteria) == where(criteria).exists()
 //@ func Exists(ctx, input, args) (res, err)
@@ -62,7 +62,7 @@ package impl
 //@   ensures len(args) > 1 ==> is(err, ErrWrongArity)
 //@   ensures len(args) == 1 ==> ((err != nil) == (exists k int :: 0 <= k && k < len(input) && critTV(e, K, N, input[k]) == TV_ERR))
 //@   ensures len(args) == 1 && err == nil ==> collTV(res) == ite(filtLen(e, K, N, input, len(input)) > 0, TV_T, TV_F)
-//@   assigns nothing
+//@   assigns ctx.LastResult, ctx.BeforeLastResult
 //
 // iif(criterion, true-result [, otherwise-result]) with the singleton rule on the criterion
 //@ func Iif(ctx, input, args) (res, err)
@@ -77,7 +77,7 @@ package impl
 //@   ensures (len(args) == 2 || len(args) == 3) && cerr == nil && tvC(c) == TV_T ==> res == evalRes(args[1], K, N, input) && err == evalErr(args[1], K, N, input)
 //@   ensures len(args) == 3 && cerr == nil && (tvC(c) == TV_F || tvC(c) == TV_U) ==> res == evalRes(args[2], K, N, input) && err == evalErr(args[2], K, N, input)
 //@   ensures len(args) == 2 && cerr == nil && (tvC(c) == TV_F || tvC(c) == TV_U) ==> err == nil && len(res) == 0
-//@   assigns nothing
+//@   assigns ctx.LastResult, ctx.BeforeLastResult
 //
 // ---- C08: numeric functions agree with exact arithmetic, or give empty / an error --------
 //
@@ -122,7 +122,7 @@ package impl
 //@   ensures len(input) > 1 ==> err != nil
 //@   ensures len(input) == 1 && len(args) > 1 ==> is(err, ErrWrongArity)
 //@   ensures len(input) == 1 && len(args) == 0 && isNum(input[0]) ==> err == nil && len(res) == 1 && res[0] == mkDec(real(roundHA(numOf(input[0]))))
-//@   assigns nothing
+//@   assigns ctx.LastResult, ctx.BeforeLastResult
 //
 // powInt32: the exact integer power when it fits an int32 (ok), otherwise !ok; terminates.
 //@ func powInt32(base, exp) (res, ok)
@@ -172,7 +172,7 @@ package impl
 //@   ensures ints && intOf(ev[0]) == 2 && inInt32(intOf(input[0]) * intOf(input[0])) ==> err == nil && len(res) == 1 && res[0] == mkInt(intOf(input[0]) * intOf(input[0]))
 //@   ensures ints && intOf(ev[0]) == 2 && !inInt32(intOf(input[0]) * intOf(input[0])) ==> err == nil && len(res) == 0
 //@   ensures ints && intOf(ev[0]) == 3 && !inInt32(intOf(input[0]) * intOf(input[0]) * intOf(input[0])) ==> err == nil && len(res) == 0
-//@   assigns nothing
+//@   assigns ctx.LastResult, ctx.BeforeLastResult
 //
 // ---- C10: positional subsetting ---------------------------------------------------------
 //@ func First(ctx, input, args) (res, err)
@@ -209,7 +209,7 @@ package impl
 //@   ensures len(input) > 0 && len(args) == 1 && (everr != nil || len(ev) != 1) ==> err != nil
 //@   ensures len(input) > 0 && ok ==> err == nil && len(res) == len(input) - clampN(n, len(input))
 //@   ensures len(input) > 0 && ok ==> forall k int :: 0 <= k && k < len(res) ==> res[k] == input[k + clampN(n, len(input))]
-//@   assigns nothing
+//@   assigns ctx.LastResult, ctx.BeforeLastResult
 //
 //@ func Take(ctx, input, args) (res, err)
 //@   requires ctx != nil && len(input) <= 2147483647
@@ -225,7 +225,7 @@ package impl
 //@   ensures len(input) > 0 && len(args) == 1 && (everr != nil || len(ev) != 1) ==> err != nil
 //@   ensures len(input) > 0 && ok ==> err == nil && len(res) == clampN(n, len(input))
 //@   ensures len(input) > 0 && ok ==> forall k int :: 0 <= k && k < len(res) ==> res[k] == input[k]
-//@   assigns nothing
+//@   assigns ctx.LastResult, ctx.BeforeLastResult
 //
 //@ func Count(ctx, input, args) (res, err)
 //@   requires len(input) <= 2147483647
@@ -258,7 +258,7 @@ package impl
 //@     invariant forall k int :: 0 <= k && k < len(fieldErrs) ==> fieldErrs[k] != nil
 //@     invariant forall k int :: 0 <= k && k < i && selErr(e, K, N, input[k]) != nil ==> is(selErr(e, K, N, input[k]), expr.ErrInvalidField)
 //@     invariant forall k int, j int :: 0 <= k && k < i && 0 <= j && j < selLen(e, K, N, input[k]) ==> concatLen(e, K, N, input, k) + j < len(result) && result[concatLen(e, K, N, input, k) + j] == selOut(e, K, N, input[k])[j]
-//@   assigns nothing
+//@   assigns ctx.LastResult, ctx.BeforeLastResult
 //
 // distinct(): an order-preserving sub-collection with no two equal items in which every
 // input item has a representative
@@ -304,7 +304,7 @@ package impl
 //@     invariant 0 <= i && i <= len(input)
 //@     invariant len(result) == exclLen(d, input, i)
 //@     invariant forall k int :: 0 <= k && k < i && keepE(d, input[k]) ==> exclLen(d, input, k) < len(result) && result[exclLen(d, input, k)] == input[k]
-//@   assigns nothing
+//@   assigns ctx.LastResult, ctx.BeforeLastResult
 //
 // intersect(d): items of the input (primitives as System values) equal to some item of d,
 // each at most once, never a nil item
@@ -326,7 +326,7 @@ package impl
 //@     invariant validColl(result)
 //@     invariant forall a int :: 0 <= a && a < len(result) ==> result[a] != nil
 //@     invariant forall a int :: 0 <= a && a < len(result) ==> (exists k int :: 0 <= k && k < i && containsS(d, input[k]) && (result[a] == input[k] || (fromOk(input[k]) && result[a] == fromS(input[k]))))
-//@   assigns nothing
+//@   assigns ctx.LastResult, ctx.BeforeLastResult
 //
 // ---- C07/C16 (thin contracts): an empty input yields empty, not an error and not a value;
 // a call whose argument count is within the registered bounds never fails with ErrWrongArity
@@ -453,7 +453,7 @@ package impl
 //@   ensures ok && len(args) == 1 && startOk && 0 <= start && start < rlenS(s) ==> err == nil && len(res) == 1 && res[0] == box(system.String(rsubS(s, start, rlenS(s))))
 //@   ensures ok && len(args) == 2 && startOk && (start < 0 || start >= rlenS(s)) ==> len(res) == 0
 //@   ensures ok && len(args) == 2 && startOk && lenOk && 0 <= start && start < rlenS(s) ==> err == nil && len(res) == 1 && res[0] == box(system.String(rsubS(s, start, subEnd(s, start, intOf(nv[0])))))
-//@   assigns nothing
+//@   assigns ctx.LastResult, ctx.BeforeLastResult
 //
 // indexOf(t): the character index of the first occurrence, -1 if none
 //@ func IndexOf(ctx, input, args) (res, err)
@@ -470,7 +470,7 @@ package impl
 //@   ensures len(input) == 0 && len(args) == 1 ==> err == nil && len(res) == 0
 //@   ensures ok && len(args) == 1 && evalErr(args[0], K, N, input) == nil && len(tv) == 0 ==> err == nil && len(res) == 0
 //@   ensures ok && len(args) == 1 && tOk ==> err == nil && len(res) == 1 && res[0] == mkInt(rindexS(s, t))
-//@   assigns nothing
+//@   assigns ctx.LastResult, ctx.BeforeLastResult
 //
 //@ func StartsWith(ctx, input, args) (res, err)
 //@   requires ctx != nil && validColl(input)
@@ -484,7 +484,7 @@ package impl
 //@   let tOk = evalErr(args[0], K, N, input) == nil && len(tv) == 1 && fromOk(tv[0]) && isStringV(fromS(tv[0]))
 //@   ensures len(input) == 0 && len(args) == 1 ==> err == nil && len(res) == 0
 //@   ensures ok && len(args) == 1 && tOk ==> err == nil && collTV(res) == ite(strprefix(t, s), TV_T, TV_F)
-//@   assigns nothing
+//@   assigns ctx.LastResult, ctx.BeforeLastResult
 //
 //@ func EndsWith(ctx, input, args) (res, err)
 //@   requires ctx != nil && validColl(input)
@@ -498,7 +498,7 @@ package impl
 //@   let tOk = evalErr(args[0], K, N, input) == nil && len(tv) == 1 && fromOk(tv[0]) && isStringV(fromS(tv[0]))
 //@   ensures len(input) == 0 && len(args) == 1 ==> err == nil && len(res) == 0
 //@   ensures ok && len(args) == 1 && tOk ==> err == nil && collTV(res) == ite(strsuffix(t, s), TV_T, TV_F)
-//@   assigns nothing
+//@   assigns ctx.LastResult, ctx.BeforeLastResult
 //
 //@ func Contains(ctx, input, args) (res, err)
 //@   requires ctx != nil && validColl(input)
@@ -512,13 +512,13 @@ package impl
 //@   let tOk = evalErr(args[0], K, N, input) == nil && len(tv) == 1 && fromOk(tv[0]) && isStringV(fromS(tv[0]))
 //@   ensures len(input) == 0 && len(args) == 1 ==> err == nil && len(res) == 0
 //@   ensures ok && len(args) == 1 && tOk ==> err == nil && collTV(res) == ite(strcontains(s, t), TV_T, TV_F)
-//@   assigns nothing
+//@   assigns ctx.LastResult, ctx.BeforeLastResult
 //
 //@ func Replace(ctx, input, args) (res, err)
 //@   requires ctx != nil && validColl(input)
 //@   requires forall k int :: 0 <= k && k < len(args) ==> args[k] != nil
 //@   ensures len(input) == 0 && len(args) == 2 ==> err == nil && len(res) == 0
-//@   assigns nothing
+//@   assigns ctx.LastResult, ctx.BeforeLastResult
 //
 // ---- C13: conversion functions ------------------------------------------------------------------
 // toT: empty for an unconvertible item (not an error, not a value of another type); the result
